@@ -29,7 +29,7 @@ func TestMain(m *testing.M) {
 	gen.Quiet()
 	ev.MustHit("restart-in-history", "pruning-config", "block-with-uncle", "failing-tx-in-block", "fork-crossing-block", "reorg-during-history", "batch>1",
 		"corrupt:root", "corrupt:receipthash", "corrupt:bloom", "corrupt:gasused", "corrupt:txhash", "corrupt:unclehash", "corrupt:body-drop-tx", "corrupt:body-dup-tx",
-		"corrupt:body-swap-tx", "corrupt:body-add-uncle", "corrupt:body-drop-uncle", "corrupt:txhash-recomputed-root-stale", "commitments-recomputed", "contract-executing-tx", "corrupt-overtaking", "overtaking-branch-was-unexecuted")
+		"corrupt:body-swap-tx", "corrupt:body-add-uncle", "corrupt:body-drop-uncle", "corrupt:txhash-recomputed-root-stale", "commitments-recomputed", "contract-executing-tx", "corrupt-overtaking", "overtaking-branch-was-unexecuted", "forked-deployments", "same-address-different-code-on-branches")
 	ev.Main(m, ev.Config{
 		Property: "C01",
 		Level:    "exploration",
@@ -240,8 +240,26 @@ func forkCrossing(nc gen.NamedConfig, h uint64) bool {
 
 func TestImportIsDeterministic(t *testing.T) {
 	ev.Check(t, ev.N(100, 2400), func(t *rapid.T) {
+		importIsDeterministic(t, gen.TreeOpts{MaxBranches: ev.Pick(3, 5), MaxDepth: ev.Pick(9, 24), MaxTxs: 4, Uncles: true, MinMain: 3, ReuseTxs: true, Rivals: true}, "")
+	})
+}
+
+// TestForkedDeployments: the same oracle on short trees in which one sender
+// deploys contracts, so that competing branches put different code at the same
+// address, and transactions whose result depends on what the node says about
+// that address (code size, code, storage) follow on every branch: results must
+// not depend on what the node executed before on another branch.
+func TestForkedDeployments(t *testing.T) {
+	ev.Check(t, ev.N(60, 1500), func(t *rapid.T) {
+		importIsDeterministic(t, gen.TreeOpts{MaxBranches: 3, MaxDepth: 4, MaxTxs: 3, MinMain: 2, Senders: 1,
+			Kinds: []string{"create", "create", "codesize", "codesize", "codesize", "touch-created", "touch-created", "store-set", "transfer"}}, "forked-deployments")
+	})
+}
+
+func importIsDeterministic(t *rapid.T, opts gen.TreeOpts, leg string) {
+	{
 		nc := rapid.SampledFrom(gen.Configs()).Draw(t, "config")
-		tr := gen.DrawTree(t, nc, gen.TreeOpts{MaxBranches: ev.Pick(3, 5), MaxDepth: ev.Pick(9, 24), MaxTxs: 4, Uncles: true, MinMain: 3, ReuseTxs: true, Rivals: true})
+		tr := gen.DrawTree(t, nc, opts)
 		defer tr.Close()
 		labels := map[string]bool{"config:" + nc.Name: true}
 		contract := false
@@ -353,9 +371,34 @@ func TestImportIsDeterministic(t *testing.T) {
 		}
 		nt := contract && len(tr.Nodes) > 2 && (labels["batch>1"] || labels["restart-in-history"]) && hasFork(tr)
 		canon := strings.Join(tr.Describe(), ";") + "|" + strings.Join(describe(steps), ",") + cacheKind
+		if leg != "" {
+			lb = append(lb, leg)
+			// the same address deployed with different code on two branches
+			codeAt := map[common.Address]map[common.Hash]bool{}
+			for _, nd := range tr.Nodes[1:] {
+				for _, r := range nd.Receipts {
+					if r.ContractAddress != (common.Address{}) && r.Status == types.ReceiptStatusSuccessful || (r.ContractAddress != (common.Address{}) && len(r.PostState) > 0) {
+						if codeAt[r.ContractAddress] == nil {
+							codeAt[r.ContractAddress] = map[common.Hash]bool{}
+						}
+						st, err := a.Chain.StateAt(nd.Block.Root())
+						if err == nil {
+							codeAt[r.ContractAddress][st.GetCodeHash(r.ContractAddress)] = true
+						}
+					}
+				}
+			}
+			for _, hs := range codeAt {
+				if len(hs) > 1 {
+					lb = append(lb, "same-address-different-code-on-branches")
+					break
+				}
+			}
+			canon = leg + canon
+		}
 		ev.Case(nt, []byte(canon), lb...)
 		ev.Sample(map[string]interface{}{"config": nc.Name, "cache": cacheKind, "tree": tr.Describe(), "history": describe(steps)})
-	})
+	}
 }
 
 func hasFork(tr *gen.Tree) bool {
